@@ -121,9 +121,9 @@ theorem Terminated.noDigit {r : List Char} (h : Terminated r) : NoDigitHead r :=
   | nil => trivial
   | cons c r => exact h.1
 
-theorem lexNumber_int (neg : Bool) (n : Nat) (rest : List Char) (hn : n ≤ 2147483647)
+theorem lexNumber_int (st : List Char) (neg : Bool) (n : Nat) (rest : List Char) (hn : n ≤ 2147483647)
     (hr : Terminated rest) :
-    lexNumber neg (natChars n ++ rest) = .ok (.int ((if neg then -1 else 1) * (n : Int)), rest) := by
+    lexNumber st neg (natChars n ++ rest) = .ok (.int ((if neg then -1 else 1) * (n : Int)), rest) := by
   unfold lexNumber
   rw [scanDigits_natChars n rest hr.noDigit]
   cases rest with
@@ -187,10 +187,10 @@ theorem fracDigits_take (fp : Nat) : (fracDigits fp).take 17 = fracDigits fp :=
 
 /-- A non-negative scaled value below 16384pt, printed by `display_no_units` and followed by a
 unit, lexes back to itself (given the decimal round trip of the fraction). -/
-theorem lexNumber_scaled (H : ScaledRoundTrip) (neg : Bool) (a : Nat)
+theorem lexNumber_scaled (H : ScaledRoundTrip) (st : List Char) (neg : Bool) (a : Nat)
     (u rest : List Char) (hu : ∀ c ∈ u, isAlpha c = true) (hne : u ≠ []) :
-    lexNumber neg (printNoUnits (a : Int) ++ (u ++ rest)) =
-      lexUnit neg (a / 65536) (fracDigits (a % 65536)) (u ++ rest) := by
+    lexNumber st neg (printNoUnits (a : Int) ++ (u ++ rest)) =
+      lexUnit st neg (a / 65536) (fracDigits (a % 65536)) (u ++ rest) := by
   obtain ⟨h1, h2, h3⟩ := H (a % 65536) (Nat.mod_lt _ (by omega))
   unfold lexNumber printNoUnits
   have hna : ((a : Int)).natAbs = a := by omega
@@ -219,9 +219,9 @@ theorem lexNumber_scaled (H : ScaledRoundTrip) (neg : Bool) (a : Nat)
     rw [scanFrac_digits _ _ h2 hnd]
     simp [hc]
 
-theorem lexUnit_pt (H : ScaledRoundTrip) (neg : Bool) (a : Nat) (ha : a ≤ 1073741823)
+theorem lexUnit_pt (H : ScaledRoundTrip) (st : List Char) (neg : Bool) (a : Nat) (ha : a ≤ 1073741823)
     (rest : List Char) (hr : WordEnd rest) :
-    lexUnit neg (a / 65536) (fracDigits (a % 65536)) (['p', 't'] ++ rest) =
+    lexUnit st neg (a / 65536) (fracDigits (a % 65536)) (['p', 't'] ++ rest) =
       .ok (.dim ((if neg then -1 else 1) * (a : Int)), rest) := by
   obtain ⟨h1, h2, h3⟩ := H (a % 65536) (Nat.mod_lt _ (by omega))
   unfold lexUnit
@@ -233,9 +233,9 @@ theorem lexUnit_pt (H : ScaledRoundTrip) (neg : Bool) (a : Nat) (ha : a ≤ 1073
   have : ((a / 65536 : Nat) : Int) * 65536 + ((a % 65536 : Nat) : Int) = a := by omega
   rw [this]
 
-theorem lexUnit_inf (H : ScaledRoundTrip) (neg : Bool) (a : Nat) (ha : a ≤ 2147483647)
+theorem lexUnit_inf (H : ScaledRoundTrip) (st : List Char) (neg : Bool) (a : Nat) (ha : a ≤ 2147483647)
     (o : InfOrder) (rest : List Char) (hr : WordEnd rest) :
-    lexUnit neg (a / 65536) (fracDigits (a % 65536)) (o.unit ++ rest) =
+    lexUnit st neg (a / 65536) (fracDigits (a % 65536)) (o.unit ++ rest) =
       .ok (.inf ((if neg then -1 else 1) * (a : Int)) o, rest) := by
   obtain ⟨h1, h2, h3⟩ := H (a % 65536) (Nat.mod_lt _ (by omega))
   unfold lexUnit
@@ -288,9 +288,9 @@ theorem hexLsdAux_lt : ∀ (f n : Nat), ∀ d ∈ hexLsdAux f n, d < 16 := by
       · omega
       · exact ih _ _ h
 
-theorem scanStr_hex_digits : ∀ (ds : List Nat) (v : Nat) (r : List Char), (∀ d ∈ ds, d < 16) →
-    scanStr (.hex v true) (ds.map hexDigitChar ++ '}' :: r) =
-      scanStr (.hex (ds.foldl (fun a d => a * 16 + d) v) true) ('}' :: r) := by
+theorem scanStr_hex_digits (bs : List Char) : ∀ (ds : List Nat) (v : Nat) (r : List Char), (∀ d ∈ ds, d < 16) →
+    scanStr (.hex bs v true) (ds.map hexDigitChar ++ '}' :: r) =
+      scanStr (.hex bs (ds.foldl (fun a d => a * 16 + d) v) true) ('}' :: r) := by
   intro ds
   induction ds with
   | nil => intro v r _; rfl
@@ -302,10 +302,10 @@ theorem scanStr_hex_digits : ∀ (ds : List Nat) (v : Nat) (r : List Char), (∀
     simp only [hexDigitChar_ne_close, if_false, hexVal_hexDigitChar h1]
     exact ih _ _ (fun x hx => hd x (by simp [hx]))
 
-theorem scanStr_hexChars (n : Nat) (r : List Char) :
-    scanStr (.hex 0 true) (hexChars n ++ '}' :: r) = scanStr (.hex n true) ('}' :: r) := by
+theorem scanStr_hexChars (bs : List Char) (n : Nat) (r : List Char) :
+    scanStr (.hex bs 0 true) (hexChars n ++ '}' :: r) = scanStr (.hex bs n true) ('}' :: r) := by
   unfold hexChars
-  rw [scanStr_hex_digits _ _ _ (fun d hd => hexLsdAux_lt _ _ d (List.mem_reverse.mp hd))]
+  rw [scanStr_hex_digits bs _ _ _ (fun d hd => hexLsdAux_lt _ _ d (List.mem_reverse.mp hd))]
   rw [List.foldl_reverse]
   have := ofLsd16_hexLsdAux (n + 1) n (by omega)
   unfold ofLsd16 at this
